@@ -154,6 +154,10 @@ func addHRead(rec *Recorder, segs Segs) {
 func ListEnded(rec *Recorder, before int) (string, bool) {
 	rec.mu.Lock()
 	defer rec.mu.Unlock()
+	if rec.EchoL != 0 {
+		// the real echo handler consumed the connection (its Term event is added after the run)
+		return "", false
+	}
 	for _, e := range rec.Hist[before:] {
 		switch e["e"] {
 		case "Term", "HErr", "Abort":
@@ -272,6 +276,11 @@ func (h *VH) Handle(cx *layer4.Connection, next layer4.Handler) error {
 		return h.handleUDP(cx, rec)
 	case "mark":
 		rec.Add(Ev{"e": "Handle", "l": h.L, "r": h.R, "vis": len(cx.MatchingBytes()), "pos": rec.Expect})
+		rec.InRoute = true
+		return next.Handle(cx)
+	case "endmark":
+		// last handler of a route: the router takes over again (matching resumes)
+		rec.InRoute = false
 		return next.Handle(cx)
 	case "pass":
 		return next.Handle(cx)
@@ -287,6 +296,41 @@ func (h *VH) Handle(cx *layer4.Connection, next layer4.Handler) error {
 			rec.Add(Ev{"e": "HErr"})
 			return err
 		}
+		return next.Handle(cx)
+	case "echomark":
+		rec.EchoL, rec.EchoR = h.L, h.R
+		return next.Handle(cx)
+	case "teemark":
+		rec.TeeAt = rec.Expect
+		rec.TeeSeen = true
+		rec.Add(Ev{"e": "Tee"})
+		return next.Handle(cx)
+	case "branchterm":
+		// the branch of a tee: reads until its pipe ends; the harness turns what it read into
+		// the Branch event when the run is over
+		var segs Segs
+		buf := make([]byte, 32*1024)
+		for {
+			k, err := cx.Read(buf)
+			if k > 0 {
+				rec.branchMu.Lock()
+				segs = rec.noteBranch(segs, buf[:k])
+				rec.BranchSegs = segs
+				rec.branchMu.Unlock()
+			}
+			if err != nil || k == 0 {
+				break
+			}
+		}
+		rec.branchMu.Lock()
+		rec.BranchDone = true
+		rec.branchMu.Unlock()
+		return nil
+	case "ppmark":
+		// the real proxy_protocol handler ran before this marker and stripped the header: the
+		// N bytes at the expected position count as read by it
+		rec.Add(Ev{"e": "HRead", "segs": Segs{{rec.Expect, rec.Expect + h.N}}})
+		rec.Expect += h.N
 		return next.Handle(cx)
 	case "eatrec":
 		// eat for timed runs: records how many bytes it got (one event), then ends the connection
@@ -305,6 +349,7 @@ func (h *VH) Handle(cx *layer4.Connection, next layer4.Handler) error {
 		return next.Handle(cx.Wrap(passConn{cx}))
 	case "enter":
 		rec.Add(Ev{"e": "Enter", "l": h.L, "vis": len(cx.MatchingBytes()), "pos": rec.Expect})
+		rec.InRoute = false
 		rec.MatcherErr = false
 		before := rec.Len()
 		fbSeen := false
@@ -324,6 +369,7 @@ func (h *VH) Handle(cx *layer4.Connection, next layer4.Handler) error {
 		return err
 	case "fb":
 		rec.Add(Ev{"e": "Fallback", "l": h.L, "vis": len(cx.MatchingBytes()), "pos": rec.Expect})
+		rec.InRoute = true
 		return next.Handle(cx)
 	}
 	return fmt.Errorf("verif_h: unknown kind %q", h.K)
